@@ -34,7 +34,7 @@ def check_preserve(case):
             break
     if wellformed.snapshot(c) != before:
         raise Violation('shared_state', 'mutating the result changed the argument')
-    cls = gen.classify(nl) | simp.spec_classes(spec)
+    cls = gen.classify(nl) | simp.spec_classes(spec) | simp.netlist_twin_classes(nl)
     changed = sorted(map(repr, res_nl['gates'])) != sorted(map(repr, nl['gates'])) or res_nl['outputs'] != nl['outputs']
     return {'nt': changed, 'cls': cls, 'key': [nl['inputs'], nl['gates'], nl['outputs'], spec],
             'sample': {'bench': build.bench_text(nl), 'pipeline': spec, 'result': build.bench_text(res_nl)}}
